@@ -218,6 +218,70 @@ def sibling_opacities(model, res):
     res.extra['opacity_definition_sites'] = sites
 
 
+def stale_flow(model, res):
+    """R12.1, flow-sensitive form: no returned field may be computed from the VALUE of a derived class-body
+    attribute (one evaluated once from the parameters' class defaults).  A method that assigns
+    self.<attr> from the constructed problem before every read is fine; a read that happens before
+    that assignment (or on a path without it) picks up the frozen default."""
+    from ..vg import walk as gwalk
+    from .c06 import solution_fields
+    n = 0
+    for ci in model.solver_classes():
+        keys = set(model.parameters_keys(ci) or [])
+        if not keys or ci.find_method('_run') is None:
+            continue
+        if not ci.module.name.startswith('exactpack.solvers.radshocks'):
+            continue        # scope of the property; elsewhere a derived class attribute is e.g. a Newton starting guess
+        derived = {}
+        for c in ci.mro:
+            if not isinstance(c, ClassInfo) or c.name == 'ExactSolver':
+                continue
+            for name, vals in c.attrs.items():
+                if name in keys or name == 'parameters':
+                    continue
+                v = vals[-1]
+                used = {x.id for x in ast.walk(v) if isinstance(x, ast.Name)}
+                if used & keys and not isinstance(v, ast.Dict):
+                    for sub in ast.walk(v):
+                        derived[id(sub)] = (c, name, v, sorted(used & keys))
+        if not derived:
+            continue
+        n += 1
+        b = Builder(model)
+        objn, ret = b.run_solver(ci)
+        runm = ci.find_method('_run')
+        seen = set()
+        for fname, d, sol in solution_fields(ret):
+            res.obligations += 1
+            res.evaluations += 1
+            res.nontrivial += 1
+            hit = None
+            for x in gwalk(d):
+                if x.origin and x.origin[1] is not None and id(x.origin[1]) in derived:
+                    hit = derived[id(x.origin[1])]
+                    break
+            if hit is None:
+                res.discharged += 1
+                continue
+            c, name, v, deps = hit
+            if (ci.fullname, name) in seen:
+                continue
+            seen.add((ci.fullname, name))
+            at = None
+            for key, val, rop, a in b.shared_reads:
+                if key[0] == 'classattr' and key[2] == name:
+                    at = a
+            res.add(Finding(PROP, 'C12.stale-class-attr', c.module.relpath, '%s.%s' % (c.name, name),
+                            '%s.%s derived from %s reaches a returned field' % (ci.name, name, ','.join(deps)),
+                            "%s: the returned field '%s' is computed from the class attribute `%s = %s`, which is "
+                            "evaluated once, in the class body, from the DEFAULT values of %s: some read of self.%s "
+                            "happens before (or without) the assignment that installs the value of the constructed "
+                            "problem, so non-default %s do not reach the field" % (ci.name, fname, name, src_of(v)[:80], deps,
+                                                                                  name, '/'.join(deps)),
+                            line=getattr(at, 'lineno', 0) or v.lineno, construct='%s = %s' % (name, src_of(v)[:100])))
+    res.extra['classes_with_derived_class_attributes'] = n
+
+
 RADSHOCK_CTORS = {
     # constructor -> (argument dimensions, literal constants with the units their comments state,
     #                 derived attributes with the dimension their doc comment states)
@@ -299,4 +363,5 @@ def run(model, tier):
     travelling(model, res)
     sibling_opacities(model, res)
     scaling_groups(model, res)
+    stale_flow(model, res)
     return res
